@@ -1,3 +1,4 @@
+import PcfgVerif.Generated.ProcessState
 import PcfgVerif.Properties.OmenCore
 import PcfgVerif.Properties.OmenCacheCore
 import PcfgVerif.Generated.OmenFacts
@@ -84,5 +85,13 @@ example : exT.WF 1 ∧ exT.enumLevel 1 10 = some [['a', 'b'], ['a', 'a', 'a']] :
 every ruleset loaded in the process and break the hypothesis of `C10_cache_independent` (entries true *for this model*) -/
 theorem C10_memo_table_per_object :
     Generated.OmenFacts.optimizerSites = [("pcfg_grammar.py", "body", "__init__")] := by decide
+
+/-- **nothing outlives a call except the objects a caller holds** (regenerated from the four library packages): no module-level or
+class-level mutable container, no cache decorator or cache call (`functools.lru_cache`, `cache`), no mutable or computed default
+argument and no `global` statement anywhere in `lib_guesser`, `lib_trainer`, `lib_scorer`, `lib_princeling`.  The models of this file are
+functions of the objects handed to the code (grammar, detector, tables, memo table); this is the fact that lets them be: an answer cannot
+depend on what another object, an earlier ruleset in the same process or the other thread did -/
+theorem C10_no_process_wide_state : Generated.ProcessState.processWideState = [] := by
+  decide
 
 end Pcfg.C10
